@@ -13,6 +13,11 @@ for n in names:
     d = f'{ROOT}/seeded/{n}'
     meta = json.load(open(d + '/meta.json'))
     prop = meta['breaks_property']
+    if meta.get('neutralised_by_fix'):
+        # a later fix: commit in /repo made this change harmless (its demonstration passes with the change applied)
+        rows.append((n, prop, f"no longer a defect (fix {meta['neutralised_by_fix']})", 'detected before that fix; see meta.json'))
+        print(rows[-1], flush=True)
+        continue
     wt = f'/dev/shm/seedwt_{n}'
     outd = f'/dev/shm/seedout_{n}'
     subprocess.run(['git', '-C', '/repo', 'worktree', 'remove', '--force', wt], capture_output=True)
